@@ -56,6 +56,63 @@ def decimals_in(t):
     return out
 
 
+
+def decimal_factorial_table(t, X, ONE, GAM):
+    """Interpret the Factorial arm of eval_decimal on the five sign classes of its argument.  Conditions may compare x or
+    x % 1 with zero (any comparison operator, negation, && and ||); a leaf is `gamma` (exactly gamma(x + 1), None -> Err),
+    `err`, or `other` (the integer branch, whose content the integer rows of the meaning table decide)."""
+    FRACS = [("try", ("lift", ("call", "Decimal::checked_rem", X, ONE))), ("call", "<Decimal as ops::Rem>::rem", X, ONE), ("call", "Decimal::fract", X)]
+    ZEROS = [("const", "Decimal::ZERO", None), ("call", "Decimal::new", ("lit", "0", "i64"), ("lit", "0", "u32"))]
+    states = {"neg-int": (-1, 0), "neg-frac": (-1, -1), "zero": (0, 0), "pos-int": (1, 0), "pos-frac": (1, 1)}
+
+    class Unknown(Exception):
+        pass
+
+    def sgn(a, st):
+        if a == X:
+            return st[0]
+        if a in FRACS:
+            return st[1]
+        if a in ZEROS:
+            return 0
+        raise Unknown()
+
+    def cond(c, st):
+        if isinstance(c, tuple) and c:
+            if c[0] == "un" and c[1] == "not":
+                return not cond(c[-1], st)
+            if c[0] == "op" and len(c) == 5 and c[1] in ("and", "or"):
+                l = cond(c[3], st)
+                return (l and cond(c[4], st)) if c[1] == "and" else (l or cond(c[4], st))
+            m_ = re.match(r"^<Decimal as cmp::Partial(?:Eq|Ord)>::(eq|ne|lt|le|gt|ge)$", c[1]) if c[0] == "call" and isinstance(c[1], str) and len(c) == 4 else None
+            if m_:
+                a, b = sgn(c[2], st), sgn(c[3], st)
+                if a != 0 and b != 0:
+                    raise Unknown()          # two non-zero quantities: their order is not a matter of sign
+                return {"eq": a == b, "ne": a != b, "lt": a < b, "le": a <= b, "gt": a > b, "ge": a >= b}[m_.group(1)]
+        raise Unknown()
+
+    def leaf(x, st):
+        while isinstance(x, tuple) and x and x[0] == "return" and len(x) == 2:
+            x = x[1]
+        if isinstance(x, tuple) and x and x[0] == "if" and len(x) == 4:
+            try:
+                return leaf(x[2] if cond(x[1], st) else x[3], st)
+            except Unknown:
+                return "other"
+        if isinstance(x, tuple) and x and x[0] == "seq" and len(x) > 1 and isinstance(x[1], tuple) and x[1] and x[1][0] == "if" and len(x[1]) == 4 and x[1][3] == ("unit",):
+            # guard clause: if c { return .. }; rest
+            try:
+                return leaf(x[1][2], st) if cond(x[1][1], st) else leaf(("seq",) + x[2:] if len(x) > 3 else x[2], st)
+            except Unknown:
+                return "other"
+        if x == ("Err",):
+            return "err"
+        if M(GAM, x) is not None:
+            return "gamma"
+        return "other"
+    return {k: leaf(t, st) for k, st in states.items()}
+
 def main(tier):
     run, F, models = setup(PID, tier, LEVEL)
     run.trusted = ["std f64 methods, num_complex and rust_decimal functions compute the mathematical function of their name within the stated tolerance (library-backed rows)",
@@ -174,9 +231,14 @@ def main(tier):
             X = ("ev", ("C0",))
             ONE = ("call", "Decimal::new", ("lit", "1", "i64"), ("lit", "0", "u32"))
             GAM = ("lift", ("bindopt", ("call", "Decimal::checked_add", X, ONE), ("bind", "?v"), ("call", "Ast.gamma", ("var", "?v"))))
-            gs = [s_ for s_ in subterms(a["term"]) if M(GAM, s_) is not None]
-            allg = [s_ for s_ in subterms(a["term"]) if isinstance(s_, tuple) and len(s_) >= 2 and s_[0] == "call" and s_[1] == "Ast.gamma"]
-            okd = len(gs) == 2 and len(allg) == 2
+            # decided on the arm's decision table over the sign partition of the argument (negative / zero / positive x integral /
+            # fractional; x % 1 has the sign of x or is 0), not on how the tree is nested: fractional -> gamma(x+1), negative
+            # integer -> Err, anything else is the integer branch
+            tab = decimal_factorial_table(a["term"], X, ONE, GAM)
+            want = {"neg-int": "err", "neg-frac": "gamma", "zero": "other", "pos-int": "other", "pos-frac": "gamma"}
+            okd = tab == want
+            if not okd:
+                a = dict(a, term=("table", str(tab), a["term"]))
         run.ob(okd, "factorial|eval_decimal", "C10 eval_decimal: x! of a non-integer (positive or negative) is gamma(x+1)", "%s arm Factorial" % where(m, "::ast::eval"), T.show(a["term"])[:300] if a else "no arm")
     # sibling agreement of the hand-written numerics
     gam = {}
